@@ -60,6 +60,9 @@ def check(ctx):
     for s in specs(ctx.quick):
         for lazy in (False, True):
             cases.append(dict(s, lazy=lazy))
+    # joint: the lazy block arrays of SEVERAL ensembles evaluated in one dask graph (every subset): each block must be the block the
+    # ensemble gives on its own (two distributions with equal values but different weights, two scans of equal shape ...)
+    cases.append({"kind": "JOINT", "lazy": True})
     ctx.run(cases, "run_case", rule="one case per (ensemble kind/shape, lazy); inside every combination of compositions of all ensemble axes; "
             "non-trivial = some axis has more than one member")
 
@@ -176,7 +179,56 @@ def assemble(blocks, grid_shape, ndim):
     return rec((), 0)
 
 
+def run_joint(c):
+    import dask
+
+    import abtem
+    import abtem.distributions as D
+
+    def members():
+        return [
+            ("CTF(C10=uniform 5)", abtem.CTF(energy=1e5, semiangle_cutoff=20, C10=D.uniform(-60, 60, 5, endpoint=True)), lambda b: (np.asarray(b.C10.values, float), np.asarray(b.C10.weights, float))),
+            ("CTF(C10=gaussian 5, same values)", abtem.CTF(energy=1e5, semiangle_cutoff=20, C10=D.gaussian(20, 5, sampling_limit=3.0)), lambda b: (np.asarray(b.C10.values, float), np.asarray(b.C10.weights, float))),
+            ("CTF(C10=from_values 5, other weights)", abtem.CTF(energy=1e5, semiangle_cutoff=20, C10=D.from_values([-60.0, -30.0, 0.0, 30.0, 60.0], weights=np.array([1.0, 2.0, 3.0, 4.0, 5.0]))),
+             lambda b: (np.asarray(b.C10.values, float), np.asarray(b.C10.weights, float))),
+            ("Aberrations(C30=uniform 5)", abtem.transfer.Aberrations(energy=1e5, C30=D.uniform(-60, 60, 5, endpoint=True)), lambda b: (np.asarray(b.C30.values, float), np.asarray(b.C30.weights, float))),
+            ("GridScan A", abtem.GridScan(start=(0, 0), end=(2, 2), gpts=(5, 1)), lambda b: (np.asarray(b.get_positions(), float).ravel(),)),
+            ("GridScan B", abtem.GridScan(start=(1, 0.5), end=(3, 2.5), gpts=(5, 1)), lambda b: (np.asarray(b.get_positions(), float).ravel(),)),
+        ]
+
+    chunkings = [((2, 3),), ((1, 1, 3),)]
+    viol, tr = [], 0
+    for ch in chunkings:
+        names = [m[0] for m in members()]
+        n = len(names)
+
+        def blocks_of(m, chunks):
+            e = m[1]
+            full = chunks if len(e.ensemble_shape) == 1 else chunks + ((1,),) * (len(e.ensemble_shape) - 1)
+            return e.ensemble_blocks(full)
+
+        alone = []
+        for m in members():
+            arr = blocks_of(m, ch).compute()
+            alone.append([m[2](arr[idx].item() if hasattr(arr[idx], "item") and not hasattr(arr[idx], "ensemble_shape") else arr[idx]) for idx in np.ndindex(*arr.shape)])
+        for r in range(2, n + 1):
+            for sub in itertools.combinations(range(n), r):
+                ms = members()
+                lz = [blocks_of(ms[i], ch) for i in sub]
+                got = dask.compute(*lz)
+                tr += 1
+                for i, arr in zip(sub, got):
+                    obs = [ms[i][2](arr[idx].item() if hasattr(arr[idx], "item") and not hasattr(arr[idx], "ensemble_shape") else arr[idx]) for idx in np.ndindex(*arr.shape)]
+                    same = len(obs) == len(alone[i]) and all(len(a) == len(b) and all(np.array_equal(x, y) for x, y in zip(a, b)) for a, b in zip(obs, alone[i]))
+                    if not same and len(viol) < 2:
+                        viol.append({"key": "joint/blocks-differ", "msg": "lazy blocks of %s (chunks %r), evaluated together with %r, differ from the blocks it gives on its own" % (
+                            names[i], ch, [names[j] for j in sub if j != i])})
+    return {"viol": viol, "obs": "joint", "nt": True, "tr": tr, "st": tr, "ref": tr}
+
+
 def run_case(c):
+    if c.get("kind") == "JOINT":
+        return run_joint(c)
     from abtem.core.chunks import chunk_ranges
 
     viol, tr, worst = [], 0, 0.0
